@@ -137,7 +137,10 @@ contract(f"{RT}:Router.gn_data_indicate_ls_request", props=["C06", "C01", "C08",
              "forward_only_when_not_target": "implies(n_sent() == 1 and packet[30:36] != own_mid(self), sent0()[0:4] == basic_bytes_rhl(basic_header, basic_header.rhl - 1) and sent0()[4:12] == common_header_int(common_header).to_bytes(8, 'big'))",
              "forward_rest_identical": "implies(n_sent() == 1 and packet[30:36] != own_mid(self) and lpv_conformant(packet, 4) and bits(be(packet, 28, 2), 0, 10) == 0, sent0()[12:] == packet)",
              "no_forward_when_rhl_0_or_1": "implies(basic_header.rhl <= 1 and packet[30:36] != own_mid(self), n_sent() == 0)",
-             "reply_when_target": "implies(n_sent() == 1 and packet[30:36] == own_mid(self), frame_basic_ok(sent0(), 1, self.mib.itsGnDefaultHopLimit) and sent0()[4:12] == common_bytes(CommonNH.ANY, common_header.ht, LocationServiceHST.LS_REPLY, TrafficClass(), self.mib.itsGnIsMobile.value, 0, self.mib.itsGnDefaultHopLimit) and sent0()[16:40] == lpv_int(self.ego_position_vector).to_bytes(24, 'big') and sent0()[42:48] == packet[6:12] and len(sent0()) == 60)",
+             "reply_basic_header": "implies(n_sent() == 1 and packet[30:36] == own_mid(self), frame_basic_ok(sent0(), 1, self.mib.itsGnDefaultHopLimit) and len(sent0()) == 60)",
+             "reply_common_header": "implies(n_sent() == 1 and packet[30:36] == own_mid(self), sent0()[4:12] == common_bytes(CommonNH.ANY, common_header.ht, LocationServiceHST.LS_REPLY, TrafficClass(), self.mib.itsGnIsMobile.value, 0, self.mib.itsGnDefaultHopLimit))",
+             "reply_so_pv_is_ego": "implies(n_sent() == 1 and packet[30:36] == own_mid(self), sent0()[16:40] == lpv_int(self.ego_position_vector).to_bytes(24, 'big'))",
+             "reply_addressed_to_requester": "implies(n_sent() == 1 and packet[30:36] == own_mid(self), sent0()[42:48] == packet[6:12])",
          }), cover=["n_sent() == 1"], **S)
 
 # ---------------------------------------------------------------- dispatch: common header / basic header
